@@ -13,6 +13,7 @@
 #include <array>
 #include <vector>
 #include <algorithm>
+#include <iterator>
 
 #include "xclosure.hpp"
 #include "xcomplex.hpp"
@@ -172,10 +173,10 @@ namespace xtl
     struct xcomplex_iterator_traits
     {
         using iterator_type = xcomplex_iterator<IT, ieee_compliant>;
-        using value_type = xcomplex<typename IT::value_type, typename IT::value_type, ieee_compliant>;
-        using reference = xcomplex<typename IT::reference, typename IT::reference, ieee_compliant>;
+        using value_type = xcomplex<typename std::iterator_traits<IT>::value_type, typename std::iterator_traits<IT>::value_type, ieee_compliant>;
+        using reference = xcomplex<typename std::iterator_traits<IT>::reference, typename std::iterator_traits<IT>::reference, ieee_compliant>;
         using pointer = xclosure_pointer<reference>;
-        using difference_type = typename IT::difference_type;
+        using difference_type = typename std::iterator_traits<IT>::difference_type;
     };
 
     template <class IT, bool B>
